@@ -327,9 +327,9 @@ package spec
 //@ axiom forall s string, h string, p string, q string, f string :: urlOK(urlStr(s, h, p, q, f)) && urlScheme(urlStr(s, h, p, q, f)) == s
 //@        && urlHost(urlStr(s, h, p, q, f)) == h && urlPath(urlStr(s, h, p, q, f)) == p && urlQuery(urlStr(s, h, p, q, f)) == q && urlFrag(urlStr(s, h, p, q, f)) == f
 // parsing then printing a string whose record is already normal gives the string back
-//@ axiom forall x string :: urlOK(x) ==> urlOK(urlStr(urlScheme(x), urlHost(x), urlPath(x), urlQuery(x), urlFrag(x)))
+//@ axiom forall x string :: triggers(urlStr(urlScheme(x), urlHost(x), urlPath(x), urlQuery(x), urlFrag(x))) && (urlOK(x) ==> urlOK(urlStr(urlScheme(x), urlHost(x), urlPath(x), urlQuery(x), urlFrag(x))))
 // url.Parse lower-cases the scheme
-//@ axiom forall x string :: lower(urlScheme(x)) == urlScheme(x)
+//@ axiom forall x string :: triggers(lower(urlScheme(x))) && lower(urlScheme(x)) == urlScheme(x)
 // path.Clean
 //@ axiom forall p string :: pathClean(pathClean(p)) == pathClean(p) && pathClean(p) != "" && hasPrefix(pathClean(p), "/") == hasPrefix(p, "/")
 //@ axiom pathClean("") == "." && pathClean(".") == "." && pathClean("/") == "/"
@@ -497,6 +497,7 @@ package spec
 //@    && (urlScheme(x) != "file" ==> urlHost(x) != "")
 
 //@ func verifLemmaRebase
+//@   inline   denormalizeRef, normalizeRef
 //@   property C02, C03, C09
 //@   requires canonicalRef(c)
 //@   requires canonicalRef(rootBase) && urlFrag(rootBase) == "" && urlQuery(rootBase) == ""
@@ -520,11 +521,13 @@ package spec
 //@   ensures  below-document @@ urlScheme(c) == urlScheme(rootBase) && urlHost(c) == urlHost(rootBase) && hasPrefix(urlPath(c), urlPath(rootBase) + "/") ==> result == c
 
 //@ func verifLemmaRefString
+//@   inline   denormalizeRef, normalizeRef
 //@   property C13
 //@   requires canonicalRef(c)
 //@   ensures  result == c
 
 //@ func verifLemmaDenorm
+//@   inline   denormalizeRef, normalizeRef
 //@   property C02
 //@   requires canonicalRef(c)
 //@   requires canonicalRef(rootBase) && urlFrag(rootBase) == "" && urlQuery(rootBase) == ""
@@ -712,6 +715,7 @@ package spec
 //@ define sameRun(r2 *schemaLoader, r *schemaLoader) bool = wfResolver(r2) && r2.cache == r.cache && r2.context == r.context
 
 //@ func (*schemaLoader).transitiveResolver
+//@   inline   normalizeRef
 //@   property C02, C04
 //@   requires wfResolver(r) && urlOK(basePath) && urlScheme(basePath) != ""
 //@   assigns  r.options.RelativeBase
@@ -854,6 +858,7 @@ package spec
 //@ define canonStr(x string) string = urlStr(urlScheme(x), normHost(urlScheme(x), urlHost(x)), dedupSlashes(urlPath(x)), urlQuery(x), urlFrag(x))
 
 //@ func verifLemmaNormIdem
+//@   inline   denormalizeRef, normalizeRef
 //@   property C04
 //@   requires canonBase(base)
 //@   ensures  idempotent @@ result0 == result1
@@ -896,6 +901,7 @@ package spec
 //@   strings  uninterpreted
 //@   property C04, C08, C03, C18
 //@   requires wfResolver(resolver) && canonBase(basePath) && distinctStr(parentRefs)
+//@   assumes  [C04] ids-canonical @@ target.ID != "" ==> canonBase(normURI((hasSuffix(target.ID, "/") ? target.ID + "placeholder.json" : target.ID), basePath))
 //@   ensures  [C04] result-shape @@ result1 == nil ==> result0 != nil
 //@   ensures  kept @@ loaderKept(resolver, old(resolver.options), old(resolver.cache), old(resolver.context), old(resolver.options.ContinueOnError), old(resolver.options.SkipSchemas), old(resolver.options.AbsoluteCircularRef))
 //@   ensures  [C08] failures-monotone @@ failures >= old(failures)
